@@ -32,6 +32,7 @@ type Config struct {
 	Profile     bool
 	ConcIndex   bool
 	UnwindIsHang bool
+	Stubs       map[string]string
 	FallbackTimeoutMs int
 	Progress    int
 }
